@@ -95,10 +95,12 @@ def toCP : String → CP
   | "None" => .none
   | _ => .prevent
 
-def toDryRun : String → DryRun
-  | "reject" => .reject
-  | "error" => .error
-  | _ => .accept
+/-- "accept" | "reject[:Reason]" (a reason preflight.DryRun lists as a violation) |
+"error[:Reason]" (any other API error). -/
+def toDryRun (s : String) : DryRun :=
+  if s.startsWith "reject" then .reject
+  else if s.startsWith "error" then .error
+  else .accept
 
 def toPObj (p : JPObj) : PObj :=
   { kind := p.kind, ns := p.ns, name := p.name, cp := toCP p.cp, payload := p.payload, presetOwnerRef := p.preset, dryRun := toDryRun p.dryRun }
